@@ -955,6 +955,13 @@ class EpsilonDominance(Dominance):
                     return 0
 
         if not dominate1 and not dominate2:
+            # inside one box a solution that Pareto dominates the other is always
+            # preferred; the distances below can round to the same value
+            result = ParetoDominance().compare(solution1, solution2)
+
+            if result != 0:
+                return result
+
             dist1 = 0.0
             dist2 = 0.0
 
